@@ -262,7 +262,11 @@ impl State {
         match self.inner {
             // If the stream is already in a `Closed` state, do nothing,
             // provided that there are no frames still in the send queue.
-            Closed(..) if !queued => {}
+            // A reset that is only scheduled has not been sent: the stream is
+            // not really closed yet, whatever the queue looks like (its DATA
+            // may be waiting for window outside the queue), and the peer's
+            // reset takes its place.
+            Closed(ref cause) if !queued && !matches!(cause, Cause::ScheduledLibraryReset(..)) => {}
             // A notionally `Closed` stream may still have queued frames in
             // the following cases:
             //
